@@ -263,6 +263,8 @@ class ExprMixin:
             ca, cb = self.concrete(a), self.concrete(b)
             if ca is not None and cb is not None: return num(ca ** cb)
             if cb == 2: return n_mul(a, a)
+            h = self.ext.get("pow")
+            if h: return h(self, [a, b], {}, st, n)
             raise Unsupported("pow")
         if isinstance(op, (ast.FloorDiv, ast.Mod)):
             ca, cb = self.concrete(a), self.concrete(b)
